@@ -100,6 +100,8 @@ def sym_eq(a, b):
 
 
 def text_eq(a: str, b: str):
+    if a == b:
+        return True
     if not (_text.has_placeholder(a) or _text.has_placeholder(b)):
         return a == b
     ta, tb = _text.decode(a), _text.decode(b)
